@@ -26,7 +26,11 @@ RULE = ('one case = one sampler configuration from the option grids of the famil
         '"small") and, for RandomFunction only, 5 constant fills that put all sinusoids at their maximum '
         'simultaneously.  A case is non-trivial when the explored answers exercise a boundary of the declared '
         'set (interval ends reached, supremum schedule executed, a symmetry/trace/determinant/triangular/'
-        'non-default-norm constraint present, constructor refusal expected)')
+        'non-default-norm constraint present, constructor refusal expected).  Besides the option grids there are '
+        'hand-written tables whose rows each pin one thing the grids pass explicitly: options left at their '
+        'documented defaults and alternative spellings (defaults_and_forms, random_function_defaults_terms), '
+        'sizes beyond the grids (array_sizes_beyond, square_*_beyond), several sampler objects alive at once '
+        '(interleaved_samplers) and sets declared in a grader\'s short forms (declared_through_grader)')
 EXPLANATION = ('states = sampler configurations; transitions = executions of the real gen_sample() (and, for '
                'random functions, evaluations of the drawn function on a 3^input_dim grid) under one schedule '
                'of environment answers; every execution runs the implementation itself')
@@ -438,8 +442,9 @@ class RandomFunctionFam(SeededFamily):
         self.name = 'random_function_complex' if cplx else 'random_function_real'
         self.rule = ('RandomFunction over input_dim 1-4 x output_dim 1-3 x num_terms {1,3} x center %s x amplitude '
                      '{0.5,10}, complex=%s; full product of the array-fill menus of the first draw (%s); the drawn '
-                     'function is evaluated on the grid {-2.5,0,1}^input_dim, a second function is drawn, and the '
-                     'first is re-evaluated; checked: callable, nin tag, library error for input_dim-1 and '
+                     'function is evaluated on the grid {-2.5,0,1}^input_dim, a second function is drawn from the same '
+                     'sampler and (default schedule) one from another, differently configured sampler, and the first is re-evaluated, '
+                     'again after the wrong-arity calls raised; checked: callable, nin tag, library error for input_dim-1 and '
                      'input_dim+1 arguments, scalar vs MathArray(output_dim), real vs complex values, '
                      '|f(x)-center| <= amplitude, identical values on re-evaluation.  The constant fills '
                      '(amplitude draw 1-2^-53, frequency draw 1/2, phase draw 1/4) put every sinusoid at its maximum, '
@@ -461,21 +466,32 @@ class RandomFunctionFam(SeededFamily):
         menu restriction per array draw of the first gen_sample (positions: amplitudes, [complex phases],
         frequencies, phases); see the class docstring.
         """
-        role = i if not self.cplx else (i if i == 0 else i - 1 if i > 1 else 'cphase')
+        cplx = self.cur_cplx
+        role = i if not cplx else (i if i == 0 else i - 1 if i > 1 else 'cphase')
         if role == 'cphase':
             return (5,)
         if self.tier != 'quick':
-            return (1, 4, 5, 6, 8) if self.cplx else range(1, n)
+            return (1, 4, 5, 6, 8) if cplx else range(1, n)
         return {0: (8, 4), 1: (6, 4), 2: (5, 7)}.get(role, CONST_IDX)
 
-    def check(self, case):
+    def config_of(self, case):
+        """(keyword arguments handed to the constructor, the complete declared configuration)"""
         input_dim, output_dim, num_terms, ci, amplitude, cplx = case
-        cplx = bool(cplx)
-        center = RF_CENTERS[ci]
-        cfg = dict(input_dim=input_dim, output_dim=output_dim, num_terms=num_terms, center=center,
-                   amplitude=amplitude, complex=cplx)
+        cfg = dict(input_dim=input_dim, output_dim=output_dim, num_terms=num_terms, center=RF_CENTERS[ci],
+                   amplitude=amplitude, complex=bool(cplx))
+        return cfg, cfg
+
+    def check(self, case):
+        given, cfg = self.config_of(case)
+        input_dim, output_dim, num_terms = cfg['input_dim'], cfg['output_dim'], cfg['num_terms']
+        center, amplitude, cplx = cfg['center'], cfg['amplitude'], bool(cfg['complex'])
+        self.cur_cplx = cplx
         try:
-            s = self.mg.RandomFunction(**cfg)
+            s = self.mg.RandomFunction(**given)
+            # a second, differently configured sampler that is alive (and drawn from) at the same time
+            other = self.mg.RandomFunction(input_dim=input_dim, output_dim=output_dim,
+                                           center=complex(center).real + 100,
+                                           amplitude=amplitude * 3, complex=not cplx, num_terms=num_terms + 1)
         except Exception as e:
             return Result('constructor-raised', True,
                           viol('random_function:constructor-raises', repr(e), 'a sampler', repr(e)), 0)
@@ -489,6 +505,10 @@ class RandomFunctionFam(SeededFamily):
             v1 = [f(*x) for x in grid]
             g = s.gen_sample()
             g(*grid[-1])
+            if not ch.prefix:
+                # default schedule only (these draws lie after the mark and are never branched on)
+                h = other.gen_sample()
+                h(*grid[0])
             v2 = [f(*x) for x in recheck]
             arity = []
             for k in (input_dim - 1, input_dim + 1):
@@ -499,6 +519,8 @@ class RandomFunctionFam(SeededFamily):
                     arity.append((k, 'library'))
                 except Exception as e:      # noqa
                     arity.append((k, type(e).__name__))
+            # ... and once more after the calls that raised
+            v2 = v2 + [f(*x) for x in (recheck if not ch.prefix else recheck[:1])]
             return f, v1, v2, arity
 
         n = 0
@@ -565,13 +587,14 @@ class RandomFunctionFam(SeededFamily):
                 return Result('exceeds', True, viol(sig, msg, '<= %g' % amplitude, obs), n)
             # fixed once drawn
             k_of = {tuple(x): i for i, x in enumerate(grid)}
-            for x, v in zip(recheck, v2):
+            for x, v in zip(recheck + recheck, v2):
                 a, b = np.asarray(v1[k_of[tuple(x)]]), np.asarray(v)
                 if a.shape != b.shape or not np.all(a == b):
                     obs.update({'x': list(x), 'first': repr(a.tolist()), 'again': repr(b.tolist())})
                     return Result('not-fixed', True,
                                   viol('random_function:not-fixed-once-drawn',
-                                       'the drawn function changed its value at x after another function was drawn',
+                                       'the drawn function changed its value at x after other functions were drawn (same / another '
+                                       'sampler) or after a call with the wrong number of arguments raised',
                                        repr(a.tolist()), obs), n)
         bucket = 'max|f-c|/amplitude: default schedule %.1f, over all schedules %.2f' % (
             math.floor((first or 0) * 10) / 10.0, math.floor(worst * 100) / 100.0)
@@ -827,30 +850,7 @@ class IdentityFam(ArrayFam):
 
     def judge(self, case, sample):
         d, k, _ = case
-        desc = self.table[k][2]
-        if not isinstance(sample, self.MathArray):
-            return ('not-matharray', 'sample is %s, not MathArray' % type(sample).__name__)
-        a = R.plain(sample)
-        if a.shape != (d, d):
-            return ('shape', 'shape %r, declared %r' % (a.shape, (d, d)))
-        for i in range(d):
-            for j in range(d):
-                if i != j and a[i, j] != 0:
-                    return ('off-diagonal', 'entry [%d,%d] = %r is not zero' % (i, j, a[i, j]))
-                if i == j and not (a[i, i] == a[0, 0]):
-                    return ('diagonal-differs', 'diagonal entries %r and %r differ' % (a[0, 0], a[i, i]))
-        v = a[0, 0].item()
-        if desc[0] == 'int':
-            # the matrix is scalar * eye (float): the multiple must be an integer of the range
-            if v != int(v):
-                return ('scalar-outside', 'multiple %r is not an integer' % (v,))
-            v = int(v)
-        elif desc[0] in ('rect', 'sector'):
-            v = complex(v)
-        why = R.scalar_problem(desc, v)
-        if why:
-            return ('scalar-outside', why)
-        return None
+        return R.identity_problem(sample, self.MathArray, d, self.table[k][2])
 
     def outcome(self, case, stats):
         return self.table[case[1]][1][0]
@@ -966,29 +966,7 @@ class SquareSamplesFam(ArrayFam):
 
     def judge(self, case, sample):
         dim, sym, traceless, det, cplx, ni, rnd = case
-        eff = bool(cplx) or sym in ('hermitian', 'antihermitian')
-        # a 2x2 antisymmetric matrix [[0,a],[-a,0]] with determinant a^2 = 1 is necessarily real
-        forced_real = (dim == 2 and sym == 'antisymmetric' and det == 1)
-        bad = R.basic_array_problem(sample, self.MathArray, (dim, dim), eff, forced_real)
-        if bad:
-            return bad
-        a = R.plain(sample)
-        bad = R.symmetry_problem(a, sym)
-        if bad:
-            return bad
-        if traceless:
-            bad = R.trace_problem(a)
-            if bad:
-                return bad
-        if det is not None:
-            bad = R.det_problem(a, det)
-            if bad:
-                return bad
-        if det != 1:
-            bad = R.norm_problem(a, SQ_NORMS[ni])
-            if bad:
-                return bad
-        return None
+        return R.square_problem(sample, self.MathArray, dim, sym, traceless, det, cplx, SQ_NORMS[ni])
 
     def refine(self, case, bad, ch):
         dim, sym, traceless, det, cplx, ni, rnd = case
@@ -1014,8 +992,662 @@ class SquareSamplesFam(ArrayFam):
         return 'det=%s %s%s' % (det, 'traceless ' if traceless else '', 'retried' if retried else 'direct')
 
 
+# =========================================================================== options left at their defaults, other spellings
+
+PI = math.pi
+
+
+def forms_table(mg):
+    """
+    (label, builder, descriptor of the DECLARED set written from the documentation: defaults RealInterval [1,5],
+    IntegerRange [1,5], ComplexRectangle re [1,3] im [1,3], ComplexSector modulus [1,3] argument [0,pi/2], vectors
+    shape (3,), matrices shape (2,2), norm [1,5], triangular None, dimension 2, sampler RealInterval([1,5]),
+    symmetry None, traceless False, determinant None, complex False) -- or ('refused', why) where the documentation
+    rules the configuration out.
+    """
+    RI, IR, CR, CS = mg.RealInterval, mg.IntegerRange, mg.ComplexRectangle, mg.ComplexSector
+    RV, CV, RM, CM, RT, CT = (mg.RealVectors, mg.ComplexVectors, mg.RealMatrices, mg.ComplexMatrices,
+                              mg.RealTensors, mg.ComplexTensors)
+    IM, SM = mg.IdentityMatrixMultiples, mg.SquareMatrices
+    t = [
+        # ---- real intervals
+        ('RealInterval()', lambda: RI(), ('real', [1, 5])),
+        ('RealInterval({})', lambda: RI({}), ('real', [1, 5])),
+        ('RealInterval(start=7)', lambda: RI(start=7), ('real', [5, 7])),
+        ('RealInterval(start=-2)', lambda: RI(start=-2), ('real', [-2, 5])),
+        ('RealInterval(stop=-2)', lambda: RI(stop=-2), ('real', [-2, 1])),
+        ('RealInterval(stop=0)', lambda: RI(stop=0), ('real', [0, 1])),
+        ('RealInterval(start=0)', lambda: RI(start=0), ('real', [0, 5])),
+        ('RealInterval({start:7})', lambda: RI({'start': 7}), ('real', [5, 7])),
+        ('RealInterval({stop:0.5})', lambda: RI({'stop': 0.5}), ('real', [0.5, 1])),
+        ('RealInterval([2.5,-0.5])', lambda: RI([2.5, -0.5]), ('real', [-0.5, 2.5])),
+        ('RealInterval([0.1,0.3])', lambda: RI([0.1, 0.3]), ('real', [0.1, 0.3])),
+        ('RealInterval([1,1+1e-12])', lambda: RI([1, 1 + 1e-12]), ('real', [1, 1 + 1e-12])),
+        ('RealInterval([1e15,1e15+2])', lambda: RI([1e15, 1e15 + 2]), ('real', [1e15, 1e15 + 2])),
+        ('RealInterval([-1e-300,1e-300])', lambda: RI([-1e-300, 1e-300]), ('real', [-1e-300, 1e-300])),
+        # PENDING-FINDING ('RealInterval([-1e308,1e308])': stop-start overflows, every draw is inf or nan) -- see FORMS_PENDING
+        ('RealInterval([-1e308,1e308])', lambda: RI([-1e308, 1e308]), ('real', [-1e308, 1e308])),
+        # ---- integer ranges
+        ('IntegerRange()', lambda: IR(), ('int', [1, 5])),
+        ('IntegerRange(start=7)', lambda: IR(start=7), ('int', [5, 7])),
+        ('IntegerRange(stop=-2)', lambda: IR(stop=-2), ('int', [-2, 1])),
+        ('IntegerRange(stop=0)', lambda: IR(stop=0), ('int', [0, 1])),
+        ('IntegerRange(start=0)', lambda: IR(start=0), ('int', [0, 5])),
+        ('IntegerRange({stop:3})', lambda: IR({'stop': 3}), ('int', [1, 3])),
+        ('IntegerRange([-100,100])', lambda: IR([-100, 100]), ('int', [-100, 100])),
+        ('IntegerRange([10**9,10**9+3])', lambda: IR([10 ** 9, 10 ** 9 + 3]), ('int', [10 ** 9, 10 ** 9 + 3])),
+        # ---- complex rectangles
+        ('ComplexRectangle()', lambda: CR(), ('rect', [1, 3], [1, 3])),
+        ('ComplexRectangle(re=[4,1])', lambda: CR(re=[4, 1]), ('rect', [1, 4], [1, 3])),
+        ('ComplexRectangle(im=[-5,0])', lambda: CR(im=[-5, 0]), ('rect', [1, 3], [-5, 0])),
+        ('ComplexRectangle(re={4..1},im={-1..-2})',
+         lambda: CR(re={'start': 4, 'stop': 1}, im={'start': -1, 'stop': -2}), ('rect', [1, 4], [-2, -1])),
+        ('ComplexRectangle(re={start:7})', lambda: CR(re={'start': 7}), ('rect', [5, 7], [1, 3])),
+        ('ComplexRectangle(im={stop:0})', lambda: CR(im={'stop': 0}), ('rect', [1, 3], [0, 1])),
+        ('ComplexRectangle({re:[2,1]})', lambda: CR({'re': [2, 1]}), ('rect', [1, 2], [1, 3])),
+        ('ComplexRectangle(re=[0,0])', lambda: CR(re=[0, 0]), ('rect', [0, 0], [1, 3])),
+        # ---- complex sectors
+        ('ComplexSector()', lambda: CS(), ('sector', [1, 3], [0, HALF_PI])),
+        ('ComplexSector(modulus=[0,1])', lambda: CS(modulus=[0, 1]), ('sector', [0, 1], [0, HALF_PI])),
+        ('ComplexSector(modulus=[5,4])', lambda: CS(modulus=[5, 4]), ('sector', [4, 5], [0, HALF_PI])),
+        ('ComplexSector(argument=[-3,-1])', lambda: CS(argument=[-3, -1]), ('sector', [1, 3], [-3, -1])),
+        ('ComplexSector(argument=[pi,pi])', lambda: CS(argument=[PI, PI]), ('sector', [1, 3], [PI, PI])),
+        ('ComplexSector(argument=[0,0])', lambda: CS(argument=[0, 0]), ('sector', [1, 3], [0, 0])),
+        ('ComplexSector(argument={4..1})', lambda: CS(argument={'start': 4, 'stop': 1}), ('sector', [1, 3], [1, 4])),
+        ('ComplexSector(modulus={start:7})', lambda: CS(modulus={'start': 7}), ('sector', [5, 7], [0, HALF_PI])),
+        ('ComplexSector(argument={start:2})', lambda: CS(argument={'start': 2}), ('sector', [1, 3], [2, 5])),
+        ('ComplexSector({argument:[3pi/4,5pi/4]})', lambda: CS({'argument': [0.75 * PI, 1.25 * PI]}),
+         ('sector', [1, 3], [0.75 * PI, 1.25 * PI])),
+        # ---- vectors
+        ('RealVectors()', lambda: RV(), ('array', (3,), False, [1, 5], None)),
+        ('ComplexVectors()', lambda: CV(), ('array', (3,), True, [1, 5], None)),
+        ('RealVectors(shape=2)', lambda: RV(shape=2), ('array', (2,), False, [1, 5], None)),
+        ('ComplexVectors(shape=[4])', lambda: CV(shape=[4]), ('array', (4,), True, [1, 5], None)),
+        ('RealVectors(norm=[10,20])', lambda: RV(norm=[10, 20]), ('array', (3,), False, [10, 20], None)),
+        ('ComplexVectors(norm={20..10})', lambda: CV(norm={'start': 20, 'stop': 10}),
+         ('array', (3,), True, [10, 20], None)),
+        ('RealVectors(norm={start:7})', lambda: RV(norm={'start': 7}), ('array', (3,), False, [5, 7], None)),
+        ('RealVectors(norm={stop:0.5})', lambda: RV(norm={'stop': 0.5}), ('array', (3,), False, [0.5, 1], None)),
+        ('RealVectors(complex=False)', lambda: RV(complex=False), ('array', (3,), False, [1, 5], None)),
+        ('ComplexVectors(complex=True)', lambda: CV(complex=True), ('array', (3,), True, [1, 5], None)),
+        ('RealVectors(norm=[1e-9,2e-9])', lambda: RV(norm=[1e-9, 2e-9]), ('array', (3,), False, [1e-9, 2e-9], None)),
+        ('ComplexVectors(norm=[1e9,2e9])', lambda: CV(norm=[1e9, 2e9]), ('array', (3,), True, [1e9, 2e9], None)),
+        ('RealVectors({shape:2})', lambda: RV({'shape': 2}), ('array', (2,), False, [1, 5], None)),
+        # ---- matrices
+        ('RealMatrices()', lambda: RM(), ('array', (2, 2), False, [1, 5], None)),
+        ('ComplexMatrices()', lambda: CM(), ('array', (2, 2), True, [1, 5], None)),
+        ('RealMatrices(triangular=upper)', lambda: RM(triangular='upper'), ('array', (2, 2), False, [1, 5], 'upper')),
+        ('ComplexMatrices(triangular=lower)', lambda: CM(triangular='lower'), ('array', (2, 2), True, [1, 5], 'lower')),
+        ('RealMatrices(shape=(3,2))', lambda: RM(shape=(3, 2)), ('array', (3, 2), False, [1, 5], None)),
+        ('ComplexMatrices(norm={start:7})', lambda: CM(norm={'start': 7}), ('array', (2, 2), True, [5, 7], None)),
+        ('RealMatrices(triangular=None)', lambda: RM(triangular=None, complex=False), ('array', (2, 2), False, [1, 5], None)),
+        # ---- tensors
+        ('RealTensors(shape=(2,1,2))', lambda: RT(shape=(2, 1, 2)), ('array', (2, 1, 2), False, [1, 5], None)),
+        ('ComplexTensors(shape=[1,2,2])', lambda: CT(shape=[1, 2, 2]), ('array', (1, 2, 2), True, [1, 5], None)),
+        ('RealTensors(norm={20..10})', lambda: RT(shape=(2, 2, 2), norm={'start': 20, 'stop': 10}),
+         ('array', (2, 2, 2), False, [10, 20], None)),
+        # ---- identity multiples: 'complex' and 'norm' are documented as ignored
+        ('IdentityMatrixMultiples()', lambda: IM(), ('identity', 2, ('real', [1, 5]))),
+        ('IdentityMatrixMultiples(sampler=[3,1])', lambda: IM(sampler=[3, 1]), ('identity', 2, ('real', [1, 3]))),
+        ('IdentityMatrixMultiples(dimension=3)', lambda: IM(dimension=3), ('identity', 3, ('real', [1, 5]))),
+        ('IdentityMatrixMultiples(complex=True)', lambda: IM(complex=True), ('identity', 2, ('real', [1, 5]))),
+        ('IdentityMatrixMultiples(norm=[10,20])', lambda: IM(norm=[10, 20]), ('identity', 2, ('real', [1, 5]))),
+        ('IdentityMatrixMultiples(norm,complex,IntegerRange)',
+         lambda: IM(norm=[10, 20], complex=True, dimension=3, sampler=IR([-1, 1])), ('identity', 3, ('int', [-1, 1]))),
+        ('IdentityMatrixMultiples(sampler=ComplexRectangle())', lambda: IM(sampler=CR()),
+         ('identity', 2, ('rect', [1, 3], [1, 3]))),
+        ('IdentityMatrixMultiples(sampler=ComplexSector(),complex=False)', lambda: IM(sampler=CS(), complex=False),
+         ('identity', 2, ('sector', [1, 3], [0, HALF_PI]))),
+        ('IdentityMatrixMultiples(sampler=RealInterval())', lambda: IM(sampler=RI()), ('identity', 2, ('real', [1, 5]))),
+        ('IdentityMatrixMultiples(sampler=IntegerRange(stop=0))', lambda: IM(sampler=IR(stop=0)),
+         ('identity', 2, ('int', [0, 1]))),
+        # ---- square matrices: one option given, all others left at their defaults
+        ('SquareMatrices()', lambda: SM(), ('square', 2, None, False, None, False, [1, 5])),
+        ('SquareMatrices(dimension=3)', lambda: SM(dimension=3), ('square', 3, None, False, None, False, [1, 5])),
+        ('SquareMatrices(complex=True)', lambda: SM(complex=True), ('square', 2, None, False, None, True, [1, 5])),
+        ('SquareMatrices(traceless=True)', lambda: SM(traceless=True), ('square', 2, None, True, None, False, [1, 5])),
+        ('SquareMatrices(determinant=0)', lambda: SM(determinant=0), ('square', 2, None, False, 0, False, [1, 5])),
+        ('SquareMatrices(determinant=1)', lambda: SM(determinant=1), ('square', 2, None, False, 1, False, [1, 5])),
+        ('SquareMatrices(determinant=0.0)', lambda: SM(determinant=0.0, dimension=3),
+         ('square', 3, None, False, 0, False, [1, 5])),
+        ('SquareMatrices(determinant=1.0)', lambda: SM(determinant=1.0, dimension=3),
+         ('square', 3, None, False, 1, False, [1, 5])),
+        ('SquareMatrices(determinant=None)', lambda: SM(determinant=None, symmetry=None),
+         ('square', 2, None, False, None, False, [1, 5])),
+        ('SquareMatrices(norm=[20,10])', lambda: SM(norm=[20, 10]), ('square', 2, None, False, None, False, [10, 20])),
+        ('SquareMatrices(norm={start:7},determinant=0)', lambda: SM(norm={'start': 7}, determinant=0),
+         ('square', 2, None, False, 0, False, [5, 7])),
+        ('SquareMatrices({dimension:3,traceless:True})', lambda: SM({'dimension': 3, 'traceless': True}),
+         ('square', 3, None, True, None, False, [1, 5])),
+    ]
+    for sym in R.SYMMETRIES[1:]:
+        t.append(('SquareMatrices(symmetry=%s)' % sym, (lambda sym=sym: SM(symmetry=sym)),
+                  ('square', 2, sym, False, None, False, [1, 5])))
+        t.append(('SquareMatrices(symmetry=%s,dimension=3,norm=[10,20])' % sym,
+                  (lambda sym=sym: SM(symmetry=sym, dimension=3, norm=[10, 20])),
+                  ('square', 3, sym, False, None, False, [10, 20])))
+    # ---- documented restrictions: the constructor must refuse
+    DS = mg.DiscreteSet
+    t += [
+        ('RealVectors(complex=True)', lambda: RV(complex=True), ('refused', 'RealVectors: complex is always False')),
+        ('ComplexVectors(complex=False)', lambda: CV(complex=False), ('refused', 'ComplexVectors: complex is always True')),
+        ('RealMatrices(complex=True)', lambda: RM(complex=True), ('refused', 'RealMatrices: complex is always False')),
+        ('ComplexMatrices(complex=False)', lambda: CM(complex=False), ('refused', 'ComplexMatrices: complex is always True')),
+        ('RealTensors(complex=True)', lambda: RT(shape=(2, 2, 2), complex=True), ('refused', 'RealTensors: complex is always False')),
+        ('ComplexTensors(complex=False)', lambda: CT(shape=(2, 2, 2), complex=False), ('refused', 'ComplexTensors: complex is always True')),
+        ('RealVectors(shape=(2,2))', lambda: RV(shape=(2, 2)), ('refused', 'vector shape must have length 1')),
+        ('RealMatrices(shape=3)', lambda: RM(shape=3), ('refused', 'matrix shape must have length 2')),
+        ('ComplexMatrices(shape=(2,2,2))', lambda: CM(shape=(2, 2, 2)), ('refused', 'matrix shape must have length 2')),
+        ('RealTensors(shape=(2,2))', lambda: RT(shape=(2, 2)), ('refused', 'tensor shape needs at least 3 dimensions')),
+        ('RealTensors()', lambda: RT(), ('refused', 'tensor shape is required')),
+        ('RealVectors(shape=0)', lambda: RV(shape=0), ('refused', 'shape entries are positive integers')),
+        ('RealMatrices(shape=(2,0))', lambda: RM(shape=(2, 0)), ('refused', 'shape entries are positive integers')),
+        ('RealMatrices(triangular=diagonal)', lambda: RM(triangular='diagonal'), ('refused', 'triangular in None/upper/lower')),
+        ('SquareMatrices(dimension=1)', lambda: SM(dimension=1), ('refused', 'dimension minimum 2')),
+        ('IdentityMatrixMultiples(dimension=1)', lambda: IM(dimension=1), ('refused', 'dimension minimum 2')),
+        ('SquareMatrices(determinant=2)', lambda: SM(determinant=2), ('refused', 'determinant in None/0/1')),
+        ('SquareMatrices(determinant=-1)', lambda: SM(determinant=-1), ('refused', 'determinant in None/0/1')),
+        ('SquareMatrices(symmetry=upper)', lambda: SM(symmetry='upper'), ('refused', 'unknown symmetry')),
+        ('IdentityMatrixMultiples(sampler=DiscreteSet)', lambda: IM(sampler=DS((1, 2))), ('refused', 'sampler must be a scalar sampling set')),
+        ('IdentityMatrixMultiples(sampler=(1,2))', lambda: IM(sampler=(1, 2)), ('refused', 'sampler must be a scalar sampling set')),
+        ('IdentityMatrixMultiples(sampler=RealVectors)', lambda: IM(sampler=RV()), ('refused', 'sampler must be a scalar sampling set')),
+        ('IntegerRange([1.5,3])', lambda: IR([1.5, 3]), ('refused', 'integer range needs integers')),
+        ('RealInterval([1,2,3])', lambda: RI([1, 2, 3]), ('refused', 'interval needs exactly two bounds')),
+        ('RealInterval([1])', lambda: RI([1]), ('refused', 'interval needs exactly two bounds')),
+        ('RealInterval([1j,2])', lambda: RI([1j, 2]), ('refused', 'interval bounds are real')),
+        ('DiscreteSet(())', lambda: DS(()), ('refused', 'non-empty tuple of values')),
+        ('SpecificFunctions([])', lambda: mg.SpecificFunctions([]), ('refused', 'non-empty list of functions')),
+        ('RandomFunction(input_dim=0)', lambda: mg.RandomFunction(input_dim=0), ('refused', 'positive dimensions')),
+        ('RandomFunction(amplitude=0)', lambda: mg.RandomFunction(amplitude=0), ('refused', 'positive amplitude')),
+        ('RandomFunction(amplitude=-1)', lambda: mg.RandomFunction(amplitude=-1), ('refused', 'positive amplitude')),
+    ]
+    return t
+
+
+# rows whose failure on the unchanged library is a reported, undecided finding: skipped
+FORMS_PENDING = ('RealInterval([-1e308,1e308])',)   # PENDING-FINDING
+
+
+FORMS_ROWS = 126        # len(forms_table(mitxgraders)) - len(FORMS_PENDING); verified in setup
+
+
+class FormsFam(SeededFamily):
+    name = 'defaults_and_forms'
+    rule = ('every sampler class built with options LEFT OUT (all of them, all but one), with partial start/stop '
+            'dictionaries, dictionary instead of list bounds, reversed dictionaries, a positional config dictionary, '
+            'explicitly passed default values, float spellings of the determinant, tiny / huge / rounding-distance '
+            'bounds, and the "ignored" complex / norm flags of IdentityMatrixMultiples (%d rows); the declared set of '
+            'each row is written down from the documented defaults.  Scalar rows: full product of the 8-answer menu '
+            '(integers: every answer, and the set of draws must be the whole range); array rows: full product of 4 '
+            'fills x 8 norm answers; SquareMatrices rows: all schedules with at most 2 non-default answers.  Rows the '
+            'documentation rules out must be refused by the constructor.  non-trivial = always (each row pins a '
+            'default or a spelling)' % FORMS_ROWS)
+
+    def setup_more(self, tier):
+        self.rows = forms_table(self.mg)
+        self.by_label = dict((r[0], r) for r in self.rows)
+        if len(self.by_label) != len(self.rows) or len(self.rows) - len(FORMS_PENDING) != FORMS_ROWS:
+            raise RuntimeError('forms_table: duplicate label or FORMS_ROWS out of date (%d rows)' % len(self.rows))
+
+    def cases(self, tier):
+        import mitxgraders
+        for r in forms_table(mitxgraders):
+            if r[0] in FORMS_PENDING:
+                continue
+            yield r[0]
+
+    def describe(self, case):
+        return {'construction': case}
+
+    def check(self, case):
+        label, build, desc = self.by_label[case]
+        sig = 'forms:' + label.split('(')[0]
+        try:
+            s = build()
+        except Exception as e:
+            if desc[0] == 'refused':
+                return Result('refused', True, None, 1)
+            return Result('constructor-raised', True,
+                          viol(sig + ':constructor-raises', '%s raised %s: %s' % (label, type(e).__name__, str(e)[:200]),
+                               'a sampler for ' + repr(desc), label), 1)
+        if desc[0] == 'refused':
+            return Result('accepted-excluded', True,
+                          viol(sig + ':constructor-accepts-excluded', '%s was accepted (%s)' % (label, desc[1]),
+                               'an error from the constructor', label), 1)
+        body = guarded(lambda ch: s.gen_sample())
+        if desc[0] == 'square':
+            it = explore(body, bound=2, seed=self.chooser_seed())
+        else:
+            it = explore_all(body, self.chooser_seed(), scalar_menu=EXT_MENU)
+        n = 0
+        seen = set()
+        for ch, out in it:
+            n += 1
+            obs = {'construction': label, 'declared': repr(desc), 'sched': sched(ch), 'seed': self.seed}
+            if out[0] != 'ok':
+                return Result('raised', True, viol(sig + ':gen_sample-raises', '%s: %s' % out[1:3], 'a sample', obs), n)
+            bad = R.declared_problem(desc, out[1], self.MathArray)
+            if bad:
+                obs['sample'] = repr(np.asarray(out[1]).tolist())[:400]
+                return Result(bad[0], True, viol('%s:%s' % (sig, bad[0]), bad[1], 'member of the declared set', obs), n)
+            if desc[0] == 'int':
+                seen.add(int(out[1]))
+            elif desc[0] == 'identity' and desc[2][0] == 'int':
+                seen.add(int(R.plain(out[1])[0, 0]))
+        idesc = desc if desc[0] == 'int' else (desc[2] if desc[0] == 'identity' and desc[2][0] == 'int' else None)
+        if idesc is not None:
+            lo, hi = R.ordered(idesc[1])
+            want = set(range(lo, hi + 1))
+            if seen != want:
+                return Result('unattainable', True,
+                              viol(sig + ':member-unattainable', 'over all answers of the integer RNG the members %r are '
+                                   'never produced' % sorted(want - seen)[:10], sorted(want)[:20], sorted(seen)[:20]), n)
+        return Result(desc[0], True, None, n)
+
+
+# =========================================================================== random functions: defaults, other term counts
+
+RF_DEFAULTS = dict(input_dim=1, output_dim=1, num_terms=3, center=0, amplitude=10, complex=False)
+RF_FULL = dict(input_dim=2, output_dim=2, num_terms=2, center=-1.5, amplitude=0.5, complex=True)
+
+
+def rf_extra_rows(tier):
+    """(label, keyword arguments given); everything not given is declared by the documented defaults"""
+    rows = [('all defaults', {})]
+    for k, v in (('input_dim', 2), ('input_dim', 3), ('output_dim', 2), ('num_terms', 1), ('num_terms', 2), ('num_terms', 5),
+                 ('num_terms', 8), ('center', 1.5), ('center', -7.25), ('amplitude', 0.5), ('amplitude', 3),
+                 ('amplitude', 1e-6), ('amplitude', 1e6), ('complex', True), ('complex', False)):
+        rows.append(('only %s=%r' % (k, v), {k: v}))
+    for k in sorted(RF_FULL):
+        rows.append(('all but %s' % k, dict((a, b) for a, b in RF_FULL.items() if a != k)))
+    for num_terms in (2, 5):
+        for input_dim in ((1, 2) if tier == 'quick' else (1, 2, 3)):
+            for output_dim in (1, 3):
+                for cplx in (False, True):
+                    rows.append(('terms=%d in=%d out=%d complex=%s' % (num_terms, input_dim, output_dim, cplx),
+                                 dict(num_terms=num_terms, input_dim=input_dim, output_dim=output_dim, complex=cplx,
+                                      center=1.5, amplitude=0.5)))
+    rows += [('center=1e3 amplitude=0.5', dict(center=1e3, amplitude=0.5, input_dim=2)),
+             ('complex center=3j', dict(center=3j, complex=True, num_terms=2)),
+             ('amplitude=1e-6 complex', dict(amplitude=1e-6, complex=True, input_dim=2, num_terms=2, center=-2 + 1j))]
+    if tier != 'quick':
+        for num_terms in (4, 7):
+            for input_dim in (1, 2, 3):
+                for cplx in (False, True):
+                    rows.append(('terms=%d in=%d out=2 complex=%s' % (num_terms, input_dim, cplx),
+                                 dict(num_terms=num_terms, input_dim=input_dim, output_dim=2, complex=cplx)))
+        rows += [('in=5 out=4 terms=5 complex', dict(input_dim=5, output_dim=4, num_terms=5, amplitude=0.5, complex=True)),
+                 ('in=5 out=1 terms=1 complex', dict(input_dim=5, num_terms=1, complex=True)),
+                 ('in=1 out=6 terms=2', dict(output_dim=6, num_terms=2, center=1.5))]
+    return rows
+
+
+class RandomFunctionExtraFam(RandomFunctionFam):
+    """same judgement as RandomFunctionFam; the configuration comes from a table of keyword arguments"""
+    def __init__(self, tier):
+        self.tier = tier
+        self.cplx = None
+        self.name = 'random_function_defaults_terms'
+        self.rule = ('RandomFunction built from %d keyword tables: no option given; exactly one option given; all but one '
+                     'given; num_terms in {2,5,8%s} (the other families use 1 and the default 3) x input_dim x output_dim x '
+                     'complex; amplitudes 1e-6, 3, 1e6; centers -7.25, 1e3, 3j%s.  Whatever is left out is declared by the '
+                     'documented defaults (input_dim 1, output_dim 1, num_terms 3, center 0, amplitude 10, real).  '
+                     'Same menus, evaluations and judgements as random_function_real/complex.  non-trivial = some '
+                     'explored schedule reached |f-center| > amplitude/2'
+                     % (len(rf_extra_rows(tier)), ',4,7' if tier != 'quick' else '',
+                        '; input_dim 5, output_dim 4 and 6' if tier != 'quick' else ''))
+
+    def setup_more(self, tier):
+        self.rows = dict(rf_extra_rows(tier))
+
+    def cases(self, tier):
+        for label, _ in rf_extra_rows(tier):
+            yield label
+
+    def config_of(self, case):
+        if not hasattr(self, 'rows'):
+            self.rows = dict(rf_extra_rows('thorough'))
+        given = dict(self.rows[case])
+        cfg = dict(RF_DEFAULTS)
+        cfg.update(given)
+        return given, cfg
+
+    def describe(self, case):
+        given, cfg = self.config_of(case)
+        d = dict((k, repr(v)) for k, v in cfg.items())
+        d.update({'sampler': 'RandomFunction', 'given': sorted(given)})
+        return d
+
+
+# =========================================================================== sizes just beyond the other families' bounds
+
+BEYOND_SHAPES = [(5,), (6,), (9,), (4, 4), (1, 4), (4, 1), (5, 2), (2, 5), (4, 3), (2, 1, 2, 1, 2), (5, 1, 1)]
+BEYOND_NORMS = [[10, 20], [20, 10], {'start': 0.5, 'stop': 0.25}]
+
+
+class BeyondFam(ArrayFam):
+    name = 'array_sizes_beyond'
+    sigbase = 'beyond'
+    scalar_menu = SCALAR_MENU
+    rule = ('vectors with 5, 6, 9 components, matrices 4x4, 1x4, 4x1, 5x2, 2x5, 4x3 (x triangular None/upper/lower), '
+            'tensors with 5 axes and 5x1x1; real and complex; norm [10,20], reversed [20,10] (thorough), and the reversed '
+            'dictionary {start: 0.5, stop: 0.25}; full product of 4 fills per array draw x 5 norm answers; same judgement as '
+            'vectors / matrices / tensors; non-trivial = always (non-default norm)')
+
+    def cases(self, tier):
+        for rnd in range(1 if tier == 'quick' else 4):
+            for cplx in (0, 1):
+                for si, shape in enumerate(BEYOND_SHAPES):
+                    for ti in (range(3) if len(shape) == 2 else (0,)):
+                        for ni in ((0, 2) if tier == 'quick' else range(len(BEYOND_NORMS))):
+                            yield (cplx, si, ti, ni, rnd)
+
+    def describe(self, case):
+        cplx, si, ti, ni, rnd = case
+        kind = {1: 'Vectors', 2: 'Matrices'}.get(len(BEYOND_SHAPES[si]), 'Tensors')
+        return {'sampler': ('Complex' if cplx else 'Real') + kind, 'shape': list(BEYOND_SHAPES[si]),
+                'triangular': TRI[ti], 'norm': BEYOND_NORMS[ni], 'round': rnd}
+
+    def build(self, case):
+        cplx, si, ti, ni, rnd = case
+        shape = BEYOND_SHAPES[si]
+        kind = {1: 'Vectors', 2: 'Matrices'}.get(len(shape), 'Tensors')
+        cls = getattr(self.mg, ('Complex' if cplx else 'Real') + kind)
+        norm = BEYOND_NORMS[ni]
+        kw = dict(shape=tuple(shape), norm=dict(norm) if isinstance(norm, dict) else list(norm))
+        if kind == 'Matrices':
+            kw['triangular'] = TRI[ti]
+        return cls(**kw)
+
+    def judge(self, case, sample):
+        cplx, si, ti, ni, rnd = case
+        norm = BEYOND_NORMS[ni]
+        pair = [norm['start'], norm['stop']] if isinstance(norm, dict) else norm
+        return judge_general(self, sample, BEYOND_SHAPES[si], bool(cplx), pair, TRI[ti])
+
+    def outcome(self, case, stats):
+        return '%s %d axes %s' % ('complex' if case[0] else 'real', len(BEYOND_SHAPES[case[1]]), TRI[case[2]])
+
+
+SQ_BEYOND_DIMS = (6, 7, 10, 11)
+
+
+class SquareConstructorBeyondFam(SquareConstructorFam):
+    name = 'square_constructor_beyond'
+    rule = ('the same refusal table as square_constructor for dimensions %r (even / odd beyond the sampled range): '
+            '72 combinations each; non-trivial = determinant requested' % (SQ_BEYOND_DIMS,))
+
+    def cases(self, tier):
+        for dim in SQ_BEYOND_DIMS:
+            for c in sq_combos():
+                if c[0] == SQ_DIMS[0]:
+                    yield [dim, c[1], c[2], c[3], c[4]]
+
+
+class SquareSamplesBeyondFam(SquareSamplesFam):
+    def __init__(self, tier):
+        SquareSamplesFam.__init__(self, tier)
+        self.name = 'square_samples_beyond'
+        self.bound = 1 if tier == 'quick' else 2
+        self.rule = ('SquareMatrices of dimension %s: every allowed combination %sx norm [10,20] (norm only where '
+                     'determinant != 1), one round of fills, all schedules with at most %d non-default answers; same '
+                     'judgement as square_samples'
+                     % ('6 and 7', 'with a determinant or traceless option ' if tier == 'quick' else '', self.bound))
+
+    def cases(self, tier):
+        for (d0, sym, traceless, det, cplx) in sq_combos():
+            if d0 != SQ_DIMS[0]:
+                continue
+            for dim in (6, 7):
+                if R.square_refusal(dim, sym, traceless, det, cplx):
+                    continue
+                if tier == 'quick' and det is None and not traceless:
+                    continue
+                yield [dim, sym, int(traceless), det, int(cplx), (1 if det != 1 else 0), 0]
+
+
+# =========================================================================== several samplers alive at the same time
+
+def interleave_table(mg):
+    """(label, [(builder, descriptor), ...]) -- objects are built first, then drawn from in turn, twice round"""
+    RI, IR, CR, CS = mg.RealInterval, mg.IntegerRange, mg.ComplexRectangle, mg.ComplexSector
+    shared_pair = [4, 1]
+    shared_dict = {'start': 20, 'stop': 10}
+    inner = RI([-3, -1])
+    return [
+        ('two RealIntervals', [(lambda: RI([1, 5]), ('real', [1, 5])), (lambda: RI([-3, -1]), ('real', [-3, -1])),
+                               (lambda: RI(), ('real', [1, 5]))]),
+        ('two IntegerRanges', [(lambda: IR([5, 1]), ('int', [1, 5])), (lambda: IR([-3, -1]), ('int', [-3, -1])),
+                               (lambda: IR(), ('int', [1, 5]))]),
+        ('RealInterval and IntegerRange, same bounds', [(lambda: RI([0, 1]), ('real', [0, 1])),
+                                                        (lambda: IR([0, 1]), ('int', [0, 1]))]),
+        ('two ComplexRectangles', [(lambda: CR(re=[1, 5], im=[-3, -1]), ('rect', [1, 5], [-3, -1])),
+                                   (lambda: CR(re=[-3, -1], im=[2, 2]), ('rect', [-3, -1], [2, 2])),
+                                   (lambda: CR(), ('rect', [1, 3], [1, 3]))]),
+        ('two ComplexSectors', [(lambda: CS(modulus=[1, 5], argument=[-3, -1]), ('sector', [1, 5], [-3, -1])),
+                                (lambda: CS(modulus=[2, 2], argument=[0, HALF_PI]), ('sector', [2, 2], [0, HALF_PI])),
+                                (lambda: CS(), ('sector', [1, 3], [0, HALF_PI]))]),
+        ('one list object for re and im, and for a second rectangle',
+         [(lambda: CR(re=shared_pair, im=shared_pair), ('rect', [1, 4], [1, 4])),
+          (lambda: CR(re=shared_pair), ('rect', [1, 4], [1, 3])),
+          (lambda: RI(shared_pair), ('real', [1, 4]))]),
+        ('one norm dictionary for three array samplers',
+         [(lambda: mg.RealVectors(norm=shared_dict), ('array', (3,), False, [10, 20], None)),
+          (lambda: mg.ComplexMatrices(norm=shared_dict), ('array', (2, 2), True, [10, 20], None)),
+          (lambda: mg.SquareMatrices(norm=shared_dict, symmetry='symmetric'),
+           ('square', 2, 'symmetric', False, None, False, [10, 20]))]),
+        ('vectors with different norms and shapes',
+         [(lambda: mg.RealVectors(shape=2, norm=[10, 20]), ('array', (2,), False, [10, 20], None)),
+          (lambda: mg.RealVectors(), ('array', (3,), False, [1, 5], None)),
+          (lambda: mg.ComplexVectors(shape=4, norm=[3, 3]), ('array', (4,), True, [3, 3], None))]),
+        ('matrices with different triangular options',
+         [(lambda: mg.RealMatrices(triangular='upper'), ('array', (2, 2), False, [1, 5], 'upper')),
+          (lambda: mg.RealMatrices(triangular='lower', shape=(3, 3), norm=[10, 20]),
+           ('array', (3, 3), False, [10, 20], 'lower')),
+          (lambda: mg.RealMatrices(), ('array', (2, 2), False, [1, 5], None))]),
+        ('square matrices with different options',
+         [(lambda: mg.SquareMatrices(symmetry='hermitian', determinant=0, dimension=3, norm=[10, 20]),
+           ('square', 3, 'hermitian', False, 0, False, [10, 20])),
+          (lambda: mg.SquareMatrices(), ('square', 2, None, False, None, False, [1, 5])),
+          (lambda: mg.SquareMatrices(symmetry='antisymmetric', traceless=True, dimension=4, determinant=1),
+           ('square', 4, 'antisymmetric', True, 1, False, [1, 5])),
+          (lambda: mg.SquareMatrices(symmetry='diagonal', complex=True), ('square', 2, 'diagonal', False, None, True, [1, 5]))]),
+        ('identity multiples: default sampler, own sampler, shared inner sampler',
+         [(lambda: mg.IdentityMatrixMultiples(), ('identity', 2, ('real', [1, 5]))),
+          (lambda: mg.IdentityMatrixMultiples(sampler=inner, dimension=3), ('identity', 3, ('real', [-3, -1]))),
+          (lambda: mg.IdentityMatrixMultiples(sampler=inner), ('identity', 2, ('real', [-3, -1]))),
+          (lambda: mg.IdentityMatrixMultiples(sampler=[10, 20]), ('identity', 2, ('real', [10, 20]))),
+          (lambda: inner, ('real', [-3, -1])),
+          (lambda: mg.IdentityMatrixMultiples(dimension=4), ('identity', 4, ('real', [1, 5])))]),
+        ('discrete sets', [(lambda: mg.DiscreteSet((1, 3, 5)), ('member', [1, 3, 5])),
+                           (lambda: mg.DiscreteSet((2, 4)), ('member', [2, 4])),
+                           (lambda: mg.DiscreteSet(0), ('member', [0]))]),
+    ]
+
+
+class InterleaveFam(SeededFamily):
+    name = 'interleaved_samplers'
+
+    def __init__(self, tier):
+        self.bound = 1 if tier == 'quick' else 2
+        self.rule = self.rule_text % self.bound
+
+    rule_text = ('12 groups of 2-6 sampler objects (same class with different options, a default-configured one among them, '
+            'one list / dictionary / inner sampler object handed to several constructors) are all built first and then '
+            'drawn from in turn, twice round; all schedules with at most %d non-default RNG answers; every draw must '
+            'lie in the set declared for ITS sampler, and the shared configuration objects must be unchanged; '
+            'non-trivial = always (a sampler that picks up another one\'s options is distinguishable)')
+
+    def setup_more(self, tier):
+        self.rows = None
+
+    def cases(self, tier):
+        import mitxgraders
+        for label, _ in interleave_table(mitxgraders):
+            yield label
+
+    def describe(self, case):
+        return {'group': case}
+
+    def check(self, case):
+        group = dict(interleave_table(self.mg))[case]
+        try:
+            objs = [b() for b, _ in group]
+        except Exception as e:
+            return Result('constructor-raised', True,
+                          viol('interleave:constructor-raises', '%s: %s' % (type(e).__name__, str(e)[:200]), 'samplers', case), 1)
+        descs = [d for _, d in group]
+        snapshot = repr([getattr(o, 'config', None) for o in objs])
+
+        def body(ch):
+            out = []
+            for rnd in range(2):
+                for k, o in enumerate(objs):
+                    out.append((k, o.gen_sample()))
+            return out
+
+        n = 0
+        for ch, out in explore(guarded(body), bound=self.bound, seed=self.chooser_seed(), scalar_menu=EXT_MENU):
+            n += 1
+            obs = {'group': case, 'sched': sched(ch), 'seed': self.seed}
+            if out[0] != 'ok':
+                return Result('raised', True, viol('interleave:gen_sample-raises', '%s: %s' % out[1:3], 'samples', obs), n)
+            for pos, (k, sample) in enumerate(out[1]):
+                bad = R.declared_problem(descs[k], sample, self.MathArray)
+                if bad:
+                    obs.update({'draw': pos, 'sampler': k, 'declared': repr(descs[k]),
+                                'sample': repr(np.asarray(sample).tolist())[:300]})
+                    return Result(bad[0], True, viol('interleave:%s' % bad[0], 'sampler #%d of the group: %s' % (k, bad[1]),
+                                                     'member of its own declared set', obs), n)
+        after = repr([getattr(o, 'config', None) for o in objs])
+        if after != snapshot:
+            return Result('config-changed', True,
+                          viol('interleave:configuration-changed-by-sampling', 'a sampler configuration changed while sampling',
+                               snapshot[:500], after[:500]), n)
+        return Result('%d samplers' % len(objs), True, None, n)
+
+
+# =========================================================================== the same sets declared through a grader
+
+def grader_table(mg):
+    """
+    (label, grader builder, expression to sample for, {variable: descriptor}, {function name: allowed functions or 'rf'})
+    -- sampling sets declared in the short forms a grader accepts (list = interval, tuple / number = discrete set,
+    nothing = RealInterval [1,5]; list of functions = SpecificFunctions)
+    """
+    FG, MGr = mg.FormulaGrader, mg.MatrixGrader
+    sin, cos = np.sin, np.cos
+    rows = [
+        ('FormulaGrader: lists, tuple, number, default',
+         lambda: FG(answers='x+y+z+w', variables=['x', 'y', 'z', 'w', 'u'],
+                    sample_from={'x': [5, 1], 'y': (2, 3), 'z': 7, 'u': [-3, -1]}, samples=2),
+         'x+y+z+w+u', {'x': ('real', [1, 5]), 'y': ('member', [2, 3]), 'z': ('member', [7]), 'w': ('real', [1, 5]),
+                       'u': ('real', [-3, -1])}, {}),
+        ('FormulaGrader: no sample_from at all',
+         lambda: FG(answers='a+b', variables=['a', 'b'], samples=3), 'a+b',
+         {'a': ('real', [1, 5]), 'b': ('real', [1, 5])}, {}),
+        ('FormulaGrader: falsy members and zero-width interval',
+         lambda: FG(answers='a+b+c', variables=['a', 'b', 'c'], sample_from={'a': 0, 'b': (0, 0.0), 'c': [0, 0]}, samples=2),
+         'a+b+c', {'a': ('member', [0]), 'b': ('member', [0]), 'c': ('real', [0, 0])}, {}),
+        ('FormulaGrader: sampler objects next to short forms',
+         lambda: FG(answers='a+b+c+d', variables=['a', 'b', 'c', 'd'],
+                    sample_from={'a': mg.IntegerRange([3, -3]), 'b': mg.ComplexRectangle(re=[4, 1], im=[0, 0]),
+                                 'c': mg.ComplexSector(modulus=[2, 2]), 'd': [10, 20]}, samples=2),
+         'a+b+c+d', {'a': ('int', [-3, 3]), 'b': ('rect', [1, 4], [0, 0]), 'c': ('sector', [2, 2], [0, HALF_PI]),
+                     'd': ('real', [10, 20])}, {}),
+        ('FormulaGrader: numbered variable with a list, plain default',
+         lambda: FG(answers='a_{1}+a_{2}+b', variables=['b'], numbered_vars=['a'], sample_from={'a': [-3, -1]}, samples=2),
+         'a_{1}+a_{2}+b', {'a_{1}': ('real', [-3, -1]), 'a_{2}': ('real', [-3, -1]), 'b': ('real', [1, 5])}, {}),
+        ('FormulaGrader: function list and random function',
+         lambda: FG(answers='f(x)+g(x)+h(x)', variables=['x'], samples=2,
+                    user_functions={'f': [sin, cos], 'g': mg.RandomFunction(center=1.5, amplitude=0.5), 'h': [_f_square]}),
+         'f(x)+g(x)+h(x)', {'x': ('real', [1, 5])}, {'f': [sin, cos], 'g': ('rf', 1.5, 0.5), 'h': [_f_square]}),
+        ('MatrixGrader: array samplers and defaults',
+         lambda: MGr(answers='A*v+c*v', variables=['A', 'v', 'c', 'B'], samples=2,
+                     sample_from={'A': mg.RealMatrices(triangular='upper'), 'v': mg.ComplexVectors(shape=2, norm=[10, 20]),
+                                  'B': mg.SquareMatrices(symmetry='antisymmetric', dimension=3)}),
+         'A*v+c*v+trans(B)', {'A': ('array', (2, 2), False, [1, 5], 'upper'), 'v': ('array', (2,), True, [10, 20], None),
+                              'c': ('real', [1, 5]), 'B': ('square', 3, 'antisymmetric', False, None, False, [1, 5])}, {}),
+        ('MatrixGrader: identity multiples with list sampler',
+         lambda: MGr(answers='I*v', variables=['I', 'v'], samples=2,
+                     sample_from={'I': mg.IdentityMatrixMultiples(dimension=3, sampler=[3, 1]), 'v': mg.RealVectors()}),
+         'I*v', {'I': ('identity', 3, ('real', [1, 3])), 'v': ('array', (3,), False, [1, 5], None)}, {}),
+    ]
+    return rows
+
+
+class ViaGraderFam(SeededFamily):
+    name = 'declared_through_grader'
+
+    def __init__(self, tier):
+        self.bound = 1 if tier == 'quick' else 2
+        self.rule = self.rule_text % self.bound
+
+    rule_text = ('8 graders (FormulaGrader, MatrixGrader) whose sample_from / user_functions use the short forms (list = '
+            'interval, tuple or single number = discrete set, variable not mentioned = RealInterval [1,5], list of '
+            'functions = function list) next to sampler objects; the draws are observed in the dictionaries returned by '
+            'gen_var_and_func_samples (2-3 samples per call); all schedules with at most %d non-default RNG answers; '
+            'every value must lie in the set its declaration describes, every sampled function must be a listed one '
+            '(random function: |g(x)-center| <= amplitude on 3 points); non-trivial = always')
+
+    def cases(self, tier):
+        import mitxgraders
+        for r in grader_table(mitxgraders):
+            yield r[0]
+
+    def describe(self, case):
+        return {'grader': case}
+
+    def check(self, case):
+        row = [r for r in grader_table(self.mg) if r[0] == case][0]
+        label, build, expr, vdesc, fdesc = row
+        try:
+            g = build()
+        except Exception as e:
+            return Result('constructor-raised', True,
+                          viol('via_grader:constructor-raises', '%s: %s' % (type(e).__name__, str(e)[:300]), 'a grader', case), 1)
+        n = 0
+        for ch, out in explore(guarded(lambda ch: g.gen_var_and_func_samples(expr)), bound=self.bound,
+                               seed=self.chooser_seed(), scalar_menu=EXT_MENU):
+            n += 1
+            obs = {'grader': case, 'sched': sched(ch), 'seed': self.seed}
+            if out[0] != 'ok':
+                return Result('raised', True, viol('via_grader:sampling-raises', '%s: %s' % out[1:3], 'samples', obs), n)
+            var_samples, func_samples = out[1]
+            for k, d in enumerate(var_samples):
+                for name, desc in sorted(vdesc.items()):
+                    if name not in d:
+                        return Result('missing', True, viol('via_grader:variable-missing', 'no value for %s in sample %d' % (name, k),
+                                                            name, obs), n)
+                    bad = R.declared_problem(desc, d[name], self.MathArray)
+                    if bad:
+                        obs.update({'variable': name, 'sample#': k, 'declared': repr(desc),
+                                    'value': repr(np.asarray(d[name]).tolist())[:300]})
+                        return Result(bad[0], True, viol('via_grader:%s' % bad[0], 'variable %s: %s' % (name, bad[1]),
+                                                         'member of the declared set', obs), n)
+            for k, d in enumerate(func_samples):
+                for name, allowed in sorted(fdesc.items()):
+                    f = d.get(name)
+                    if isinstance(allowed, list):
+                        if not any(f is a for a in allowed):
+                            obs.update({'function': name, 'sample#': k})
+                            return Result('not-listed', True, viol('via_grader:function-not-listed',
+                                                                   'sampled function %r for %s is not a listed one' % (f, name),
+                                                                   repr(allowed), obs), n)
+                    else:
+                        _, center, amplitude = allowed
+                        vals = [f(x) for x in GRID_VALUES]
+                        m = max(abs(v - center) for v in vals)
+                        if not (m <= amplitude * (1 + 1e-9)):
+                            obs.update({'function': name, 'sample#': k, 'max |g-center|': m})
+                            return Result('exceeds', True, viol('via_grader:random-function-exceeds-amplitude',
+                                                                '|g(x)-center| = %r > %r' % (m, amplitude), '<= %r' % amplitude, obs), n)
+        return Result(label.split(':')[0], True, None, n)
+
+
 def families(tier):
     return [
+        RandomFunctionExtraFam(tier),       # first: its largest cases then overlap with the other families
         RealIntervalFam(),
         IntegerRangeFam(),
         ComplexRectangleFam(),
@@ -1029,4 +1661,10 @@ def families(tier):
         IdentityFam(),
         SquareConstructorFam(),
         SquareSamplesFam(tier),
+        FormsFam(),
+        BeyondFam(),
+        SquareConstructorBeyondFam(),
+        SquareSamplesBeyondFam(tier),
+        InterleaveFam(tier),
+        ViaGraderFam(tier),
     ]
